@@ -195,6 +195,13 @@ Accepted(T, e, delta) ==
 
 -----------------------------------------------------------------------------
 (* classification of the ways in which an encoding differs from the canonical one *)
+\* other byte strings for the same big integer
+BigClasses(b) ==
+    LET d == BigDecode(b) IN
+    IF ~d.ok \/ BigCanon(d.v) = b THEN {}
+    ELSE IF d.v.k = "nil" THEN {"bigint-nil-any-byte"}                    \* one byte, whatever its value
+    ELSE IF d.v.k = "zero" /\ Len(b) = 2 THEN {"bigint-zero-any-sign-byte"} \* {k, 0} for every k
+    ELSE {"bigint-padded"}                                                \* leading zero bytes, negative zero
 RECURSIVE Classes(_, _)
 RecClasses(T, r) ==
     (IF r.tx > 0 \/ (r.wt = 0 /\ r.vx > 0) \/ (r.wt = 2 /\ r.lx > 0) THEN {"non-minimal-varint"} ELSE {})
@@ -203,8 +210,7 @@ RecClasses(T, r) ==
                (IF f.kind = "u32" /\ r.wt = 0 /\ r.hi = 1 THEN {"uint32-high-bits"} ELSE {})
           \cup (IF IsVar(f.kind) /\ r.wt = 0 /\ r.vid = 0 /\ r.hi = 0 THEN {"explicit-default"} ELSE {})
           \cup (IF f.kind = "bytes" /\ ~f.rep /\ r.wt = 2 /\ r.p.len = 0 THEN {"explicit-default"} ELSE {})
-          \cup (IF f.kind = "big" /\ r.wt = 2 /\ BigDecode(PBytes(r.p)).ok
-                   /\ BigCanon(BigDecode(PBytes(r.p)).v) # PBytes(r.p) THEN {"bigint-noncanonical"} ELSE {})
+          \cup (IF f.kind = "big" /\ r.wt = 2 THEN BigClasses(PBytes(r.p)) ELSE {})
           \cup (IF f.kind = "msg" /\ r.m THEN Classes(f.sub, r.sub) ELSE {}))
 Classes(T, e) ==
     LET F == Fields(T)
